@@ -556,13 +556,20 @@ def closure(steps):
 # oracle
 # =============================================================================================
 
+def escape_problem(escaped, what_faulted, tag):
+    """(signature, what) for a pass that did not return normally"""
+    if escaped == "Deadlock":
+        return (f"reconcile_workflow never returns: deadlock ({what_faulted})",
+                f"the event loop went idle with reconcile_workflow still pending: nothing can ever complete it ({tag})")
+    return (f"exception escapes reconcile_workflow ({what_faulted})", f"{escaped} escaped reconcile_workflow ({tag})")
+
+
 def oracle_pass(case, obs, faults_fired, tag):
     """The property text on one faulted pass.  -> list of (signature, what)"""
     out = []
     kinds = sorted({k for (_i, k) in faults_fired})
     if obs["escaped"]:
-        out.append((f"exception escapes reconcile_workflow ({'+'.join(kinds)})",
-                    f"{obs['escaped']} escaped reconcile_workflow ({tag})"))
+        out.append(escape_problem(obs["escaped"], "+".join(kinds) or "no fault", tag))
         return out
     res, rec = obs["res"], obs["rec"]
     if obs["t"] is None or obs["t"] > STEP_TIMEOUT + 1e-6:
@@ -777,7 +784,8 @@ def perturb(rng, snapshot_objects):
 
 
 def reference_run(wf, initial):
-    """fault-free passes until quiescent.  -> (list of per-pass dict, cluster) or None"""
+    """fault-free passes until quiescent.  -> list of per-pass dicts; None = not quiescent within MAXP passes;
+    a str = a pass escaped / deadlocked (the exception class name)"""
     cl = Cluster()
     cl.objects = copy.deepcopy(initial)
     passes = []
@@ -785,7 +793,7 @@ def reference_run(wf, initial):
         before = copy.deepcopy(cl.objects)
         obs = run_pass(wf, cl)
         if obs["escaped"]:
-            return None
+            return obs["escaped"]          # a str: the fault-free pass itself did not return normally
         entry = {"before": before, "calls": [(c["method"], c["endpoint"], c["name"]) for c in obs["calls"]],
                  "canon": canon_result(obs["res"]), "steps": step_outcomes(obs["rec"].wfs[0]), "obs": obs,
                  "after": copy.deepcopy(cl.objects)}
@@ -841,8 +849,12 @@ def check_recovery(ref, rec, tag):
     out = []
     last = ref[-1]
     fin = rec["final"]
-    if fin is None or any(o["escaped"] for o in rec["passes"]):
-        out.append(("exception escapes a fault-free pass after a fault", f"({tag})"))
+    esc = [o["escaped"] for o in rec["passes"] if o["escaped"]]
+    if fin is None or esc:
+        if "Deadlock" in esc:
+            out.append(("reconcile_workflow never returns: deadlock (fault-free pass after a fault)", f"({tag})"))
+        else:
+            out.append(("exception escapes a fault-free pass after a fault", f"{esc} ({tag})"))
         return out
     if fin["mut"]:
         out.append(("not quiescent after faults stopped",
@@ -866,6 +878,11 @@ def explore_workflow(ctx: Ctx, case, cases, terms, budget):
         return 0
     initial = {tuple(k): v for k, v in case.get("initial_items", [])}
     ref = reference_run(wf, initial)
+    if isinstance(ref, str):
+        sig, what = escape_problem(ref, "no fault", "fault-free pass of the reference run")
+        ctx.fail(Failure(signature=sig, what=what, case=slim(case)))
+        ctx.count("wf:reference-escaped")
+        return 0
     if ref is None:
         ctx.count("wf:reference-not-quiescent")
         return 0
@@ -980,8 +997,8 @@ def make_cases(ctx: Ctx):
             if wf is None:
                 continue
             ref = reference_run(wf, {tuple(k): v for k, v in case["initial_items"]})
-            if ref is None:
-                continue
+            if ref is None or isinstance(ref, str):
+                continue            # reported when `case` itself is explored
             c2 = copy.deepcopy(case)
             c2["full"] = False
             c2["initial_items"] = [[list(k), v] for k, v in perturb(ctx.rng, ref[-1]["after"]).items()]
@@ -1041,6 +1058,8 @@ def run_rf_faulty(sc, fg, fm):
     rec_mod.validate_match = wrapped
     try:
         return drivers.run_async(go()), r
+    except vloop.Deadlock:
+        return "deadlock", r
     finally:
         rec_mod.validate_match = orig
         drivers.reset_all()
@@ -1108,6 +1127,11 @@ def rf_fault_cases(ctx: Ctx, cases, terms):
             plans = [(a, b) for a in kinds for b in kinds if ctx.rng.random() < 0.35 or a is None or b is None]
         for fg, fm in plans:
             got = run_rf_faulty(copy.deepcopy(sc), fg, fm)
+            if got is not None and got[0] == "deadlock":
+                ctx.fail(Failure(signature="single function: the pass never returns after its hanging call was cancelled: deadlock",
+                                 what=f"reconcile_resource_function under faults GET={fg} mutation={fm} could not be cancelled",
+                                 case={"rf_scenario": sc, "fg": fg, "fm": fm}))
+                continue
             if got is None or got[0] is None:
                 ctx.count("rf:prepare-failed")
                 break
@@ -1133,67 +1157,134 @@ def rf_fault_cases(ctx: Ctx, cases, terms):
 # kind lookup under faults (observed only)
 # =============================================================================================
 
+LOOKUP_MODES = ["notfound", "raise", "http404", "http500", "hang", "cancel"]
+
+
 class LookupCluster(Cluster):
-    """lookup_kind hangs / raises `mode` for the first `times` lookups"""
-    def __init__(self, mode, times=1):
+    """the kind-discovery call (api.lookup_kind) number i of this cluster's life faults as lookup_faults[i] says:
+    notfound = ValueError (what kr8s raises for an unknown kind), raise = plain Exception, http404 / http500 =
+    kr8s.ServerError, hang = never answers, cancel = CancelledError"""
+    def __init__(self, lookup_faults=None):
         super().__init__()
-        self.mode, self.times = mode, times
+        self.lookup_faults = dict(lookup_faults or {})
+        self.nlookups = 0
+        self.lookup_fired = []
 
     async def lookup_kind(self, kind):
-        if self.times > 0:
-            self.times -= 1
-            if self.mode == "hang":
+        i = self.nlookups
+        self.nlookups += 1
+        mode = self.lookup_faults.get(i)
+        if mode:
+            self.lookup_fired.append((i, kind, mode))
+            if mode == "hang":
                 await asyncio.Event().wait()
+            if mode == "notfound":
+                raise ValueError(f"Kind not found: {kind}")
+            if mode == "cancel":
+                raise asyncio.CancelledError()
+            if mode.startswith("http"):
+                raise server_error(int(mode[4:]))
             raise Exception("lookup failed")
         return await super().lookup_kind(kind)
 
 
-def lookup_cases(ctx: Ctx):
-    """two steps using the same kind without an explicit plural: the dynamic plural lookup hangs / raises"""
-    for mode in ("hang", "raise"):
-        uid = ctx.rng.randrange(10 ** 6)
-        spec = rf_spec(f"L{uid}", "lk", "patch")
-        del spec["apiConfig"]["plural"]
-        spec2 = copy.deepcopy(spec)
-        spec2["apiConfig"]["name"] = "lk2"
-        spec3 = copy.deepcopy(spec)
-        spec3["apiConfig"]["name"] = "lk3"
-        case = {"fns": {"rf-a": {"kind": "ResourceFunction", "spec": spec}, "rf-b": {"kind": "ResourceFunction", "spec": spec2},
-                        "rf-c": {"kind": "ResourceFunction", "spec": spec3}},
-                "subs": {}, "uid": uid, "owners": {}, "prims": {},
-                "wf": {"steps": [{"label": "one", "ref": {"kind": "ResourceFunction", "name": "rf-a"}, "inputs": {"size": 1}},
-                                 {"label": "two", "ref": {"kind": "ResourceFunction", "name": "rf-b"}, "inputs": {"size": 2}},
-                                 {"label": "three", "ref": {"kind": "ResourceFunction", "name": "rf-c"},
-                                  "inputs": {"size": "=steps.one.n"}}]}}
-        wf = build(case)
-        if wf is None:
-            ctx.count("lookup:prepare-failed")
-            continue
-        cl = LookupCluster(mode)
-        obs = run_pass(wf, cl)
-        tag = f"plural lookup {mode}"
-        probs = []
-        if obs["escaped"]:
-            probs.append((f"exception escapes reconcile_workflow (lookup {mode})", obs["escaped"]))
-        else:
-            if obs["t"] > STEP_TIMEOUT + 1e-6:
-                probs.append(("pass exceeds STEP_TIMEOUT", f"{obs['t']} ({tag})"))
-            so = step_outcomes(obs["rec"].wfs[0])
-            if any(o["cls"] not in ("Retry", "PermFail", "DepSkip") for o in so.values()):
-                probs.append(("affected step is not Retry/PermFail", f"{so} ({tag})"))
-            probs += oracle_pass(case, obs, [], tag)
-            ok = None
-            for _ in range(5):
-                o2 = run_pass(wf, cl)
-                ok = o2
-            if ok["escaped"] or canon_oc(ok["res"].result)["cls"] != "Ok":
-                probs.append(("no recovery after the plural lookup failed once",
-                              f"{ok['escaped'] or canon_oc(ok['res'].result)} ({tag})"))
-        for sig, what in probs:
-            ctx.fail(Failure(signature=sig, what=what, case={"lookup": mode}))
-        ctx.note_case({"lookup": mode, "uid": uid}, nontrivial=True)
+def lookup_case(uid):
+    """three ResourceFunctions WITHOUT apiConfig.plural (dynamic plural discovery): `one` and `three` of a fresh kind A,
+    `two` of a fresh kind B; `three` needs `one`.  Discovery call 0 is kind A's, call 1 kind B's."""
+    a = rf_spec(f"La{uid}", "lk", "patch")
+    del a["apiConfig"]["plural"]
+    c = copy.deepcopy(a)
+    c["apiConfig"]["name"] = "lk3"
+    b = rf_spec(f"Lb{uid}", "lk2", "patch")
+    del b["apiConfig"]["plural"]
+    return {"fns": {"rf-a": {"kind": "ResourceFunction", "spec": a}, "rf-b": {"kind": "ResourceFunction", "spec": b},
+                    "rf-c": {"kind": "ResourceFunction", "spec": c}},
+            "subs": {}, "uid": uid, "owners": {}, "prims": {},
+            "wf": {"steps": [{"label": "one", "ref": {"kind": "ResourceFunction", "name": "rf-a"}, "inputs": {"size": 1},
+                              "condition": {"type": "OneReady", "name": "one"}},
+                             {"label": "two", "ref": {"kind": "ResourceFunction", "name": "rf-b"}, "inputs": {"size": 2}},
+                             {"label": "three", "ref": {"kind": "ResourceFunction", "name": "rf-c"},
+                              "inputs": {"size": "=steps.one.n"}}]}}
+
+
+def run_lookup_case(ctx: Ctx, uid, lookup_faults):
+    """Cold plural cache (fresh kinds), faults at the given discovery calls of the FIRST pass, then fault-free passes
+    IN THE SAME PROCESS STATE (nothing is reset in between); the result and the cluster contents must converge to those
+    of a run that never saw a fault."""
+    def norm(x, u):
+        if isinstance(x, dict):
+            x = {str(k): v for k, v in x.items()}
+        return json.loads(json.dumps(jsonable(x), sort_keys=True, default=repr).replace(str(u), "UID"))
+
+    # the never-faulted run, on structurally identical functions of OTHER fresh kinds and BEFORE the faulted run, so that
+    # nothing the faulted run leaves behind in the process (plural cache, locks, kr8s classes) can influence it
+    uid_ref = uid + 1
+    wf_ref = build(lookup_case(uid_ref))
+    ref = reference_run(wf_ref, {}) if wf_ref is not None else None
+    case = lookup_case(uid)
+    wf = build(case)
+    if wf is None:
+        ctx.count("lookup:prepare-failed")
+        return
+    tag = f"plural discovery faults {lookup_faults}"
+    cl = LookupCluster(lookup_faults)
+    obs = run_pass(wf, cl)
+    probs = []
+    affected = {0: "one", 1: "two"}
+    if obs["escaped"]:
+        probs.append(escape_problem(obs["escaped"], f"lookup {'+'.join(sorted(set(lookup_faults.values())))}", tag))
+    else:
+        if obs["t"] > STEP_TIMEOUT + 1e-6:
+            probs.append(("pass exceeds STEP_TIMEOUT", f"{obs['t']} ({tag})"))
+        so = step_outcomes(obs["rec"].wfs[0]) or {}
+        for (i, _kind, mode) in cl.lookup_fired:
+            lab = affected.get(i)
+            if lab and so.get(lab, {}).get("cls") not in ("Retry", "PermFail"):
+                probs.append(("affected step is not Retry/PermFail", f"step {lab} is {so.get(lab)} after discovery fault {mode} ({tag})"))
+        if cl.lookup_fired and canon_oc(obs["res"].result)["cls"] not in ("Retry", "PermFail"):
+            probs.append(("overall outcome is Ok/Skip although a step faulted", f"({tag})"))
+        probs += oracle_pass(case, obs, [], tag)
+    # fault-free passes, same process: plural cache, lookup locks and the prepared functions are NOT reset
+    rec_passes, final = [], None
+    for _ in range(MAXP):
+        o2 = run_pass(wf, cl)
+        rec_passes.append(o2)
+        if o2["escaped"]:
+            break
+        final = {"canon": canon_result(o2["res"]), "steps": step_outcomes(o2["rec"].wfs[0]),
+                 "mut": [c for c in o2["calls"] if c["method"] != "GET"], "snapshot": copy.deepcopy(cl.objects)}
+        if len(rec_passes) >= 2 and not final["mut"] and prev == (final["canon"], final["snapshot"]):
+            break
+        prev = (final["canon"], final["snapshot"])
+    if isinstance(ref, str):
+        probs.append(escape_problem(ref, "fault-free pass", tag))
+    elif ref is None:
+        ctx.count("lookup:reference-not-quiescent")
+    else:
+        last = {"after": norm(ref[-1]["after"], uid_ref), "canon": norm(ref[-1]["canon"], uid_ref),
+                "steps": norm(ref[-1]["steps"], uid_ref)}
+        fin = final and {"canon": norm(final["canon"], uid), "steps": norm(final["steps"], uid), "mut": final["mut"],
+                         "snapshot": norm(final["snapshot"], uid)}
+        probs += check_recovery([last], {"passes": rec_passes, "final": fin}, tag)
+    for sig, what in probs:
+        ctx.fail(Failure(signature=sig, what=what, case={"lookup_faults": {str(k): v for k, v in lookup_faults.items()}},
+                         observed={"first_pass": canon_result(obs["res"]) if obs["res"] is not None else obs["escaped"],
+                                   "final": final and final["canon"], "objects": final and sorted(map(str, final["snapshot"]))}))
+    ctx.note_case({"lookup": lookup_faults, "uid": uid}, nontrivial=bool(cl.lookup_fired),
+                  key=f"lookup|{sorted(lookup_faults.items())}")
+    for (_i, _k, mode) in cl.lookup_fired:
         ctx.count(f"lookup:{mode}")
-        drivers.reset_all()
+    drivers.reset_all()
+
+
+def lookup_cases(ctx: Ctx, plans=None):
+    if plans is None:
+        plans = [{i: mode} for mode in LOOKUP_MODES for i in (0, 1)]
+        plans += [{0: "notfound", 1: "notfound"}, {0: "hang", 1: "raise"}]
+        if not ctx.quick():
+            plans += [{0: a, 1: b} for a in LOOKUP_MODES for b in LOOKUP_MODES]
+    for lf in plans:
+        run_lookup_case(ctx, 2 * ctx.rng.randrange(10 ** 8, 5 * 10 ** 8), {int(k): v for k, v in lf.items()})
 
 
 # =============================================================================================
@@ -1204,6 +1295,9 @@ def run(ctx: Ctx):
     cases, terms = [], []
     for c in corpus_cases("C09"):
         if "rf_scenario" in c:
+            continue
+        if "lookup_faults" in c:
+            lookup_cases(ctx, plans=[c["lookup_faults"]])
             continue
         explore_workflow(ctx, c, cases, terms, budget=10 ** 6)
     budget = 40 if ctx.quick() else 400
@@ -1243,14 +1337,14 @@ def replay(ctx: Ctx, data):
     if "rf_scenario" in case:
         sc = case["rf_scenario"]
         got = run_rf_faulty(copy.deepcopy(sc), case["fg"], case["fm"])
-        if got and got[0]:
+        if got and got[0] and got[0] != "deadlock":
             o, r = got
             for sig, what in rf_oracle(sc, case["fg"], case["fm"], o, r):
                 ctx.fail(Failure(signature=sig, what=what, case=case))
             cases.append(case)
             terms.append(c_rf_case(sc, case["fg"], case["fm"], o, r))
-    elif "lookup" in case:
-        lookup_cases(ctx)
+    elif "lookup_faults" in case:
+        lookup_cases(ctx, plans=[case["lookup_faults"]])
     else:
         explore_workflow(ctx, case, cases, terms, budget=10 ** 6)
     ctx.note_case(case, True)
